@@ -53,7 +53,7 @@ theorem inv2_cv2 (cv2 : ∀ g p v, untainted s g → s.pc p = .jGotRes g v → s
   all_goals (intros; (try simp only [upd_apply, WFJ, DET, NONE, WTJ, untainted] at *); first | grind | grind (splits := 25) | grind (splits := 80) | ((repeat' split) <;> grind (splits := 80)))
 
 set_option maxHeartbeats 4000000 in
-theorem inv2_cv3 (cv3 : ∀ g a op v, untainted s g → s.pc a = .retn op g true v → op ≠ .detach → s.retval g = some v) (cv2 : ∀ g p v, untainted s g → s.pc p = .jGotRes g v → s.retval g = some v) (wv : ∀ a op g v p, s.pc a = .wake op g v p → op ≠ .detach → s.retval g = some v) (hc : stepCore s e = some s1) : ∀ g a op v, untainted s1 g → s1.pc a = .retn op g true v → op ≠ .detach → s1.retval g = some v := by
+theorem inv2_cv3 (cv3 : ∀ g a op v, untainted s g → s.pc a = .retn op g true v → op ≠ .detach → s.retval g = some v) (cv2 : ∀ g p v, untainted s g → s.pc p = .jGotRes g v → s.retval g = some v) (cv1 : ∀ g p, untainted s g → s.pc p = .jWoken g → s.retval g = some (s.res p)) (wv : ∀ a op g v p, s.pc a = .wake op g v p → op ≠ .detach → s.retval g = some v) (hc : stepCore s e = some s1) : ∀ g a op v, untainted s1 g → s1.pc a = .retn op g true v → op ≠ .detach → s1.retval g = some v := by
   step_cases e with hc
   all_goals (intros; (try simp only [upd_apply, WFJ, DET, NONE, WTJ, untainted] at *); first | grind | grind (splits := 25) | grind (splits := 80) | ((repeat' split) <;> grind (splits := 80)))
 
